@@ -338,6 +338,12 @@ func runC02(r *Report) {
 		r.SentinelEx("R4", m, 2, "fuse", 1)
 	}
 	// ---- R5
+	c02R5(r)
+}
+
+// c02R5: FUSE reads are serialised (shared with C01: a reply for offset X must carry the bytes of offset X).
+func c02R5(r *Report) {
+	p := r.P
 	sema := p.Field("fuse", "handle", "sema")
 	if r.Anchor("R5", "fuse.handle.sema", sema != nil) {
 		for _, name := range []string{"handle.Read", "handle.Release"} {
